@@ -95,6 +95,18 @@ def delegate_kwargs(prog: Program, ev: PEvent) -> dict[str, Any]:
             out.setdefault(names[i], a)
         else:
             out.setdefault(f"#{i}", a)
+    # `Cls.from_config(RetryConfig(a=.., b=..), classifier=c)`: the constructor call it stands for - from_config hands
+    # every config field to the constructor keyword of the same name (two renamed; that layer is checked on its own),
+    # so a field the config was not given is a keyword the constructor is not given
+    cfg = out.get("config")
+    if ev.label.endswith(".from_config") and isinstance(cfg, tuple) and cfg and cfg[0] == "pure" and cfg[1] == "new RetryConfig":
+        inv = {v: k for k, v in RENAMES["from_config"].items()}
+        fields = CONFIG_FIELDS(prog)
+        vals = dict(zip(fields, cfg[2]))
+        vals.update(dict(cfg[3]))
+        out = {k: v for k, v in out.items() if k != "config"}
+        for f, v in vals.items():
+            out[inv.get(f, f)] = v
     return out
 
 
@@ -261,8 +273,9 @@ def forwarding(rep: Report, prog: Program, strict: bool = True) -> None:
         dec_params = [p for p in dec.param_names() if p != "func"]
         ctor_params = [p for p in dec_params if p in RETRY_CTOR_PARAMS]
         call_params = [p for p in dec_params if p not in RETRY_CTOR_PARAMS]
-        check_forward(rep, prog, inner, lambda e: e.is_ctor("RetryPolicy"), ctor_params, {}, "decorator-ctor-sync", required_kw=RETRY_CTOR_PARAMS)
-        check_forward(rep, prog, inner, lambda e: e.is_ctor("AsyncRetryPolicy"), ctor_params, {}, "decorator-ctor-async", required_kw=RETRY_CTOR_PARAMS)
+        # (the policy is built by its constructor, or by `from_config` of a RetryConfig assembled on the spot)
+        check_forward(rep, prog, inner, lambda e: (e.is_ctor("RetryPolicy") and not e.frames) or e.label.endswith(":RetryPolicy.from_config"), ctor_params, {}, "decorator-ctor-sync", required_kw=RETRY_CTOR_PARAMS)
+        check_forward(rep, prog, inner, lambda e: (e.is_ctor("AsyncRetryPolicy") and not e.frames) or e.label.endswith(":AsyncRetryPolicy.from_config"), ctor_params, {}, "decorator-ctor-async", required_kw=RETRY_CTOR_PARAMS)
         # the wrappers: whatever functions the inner decorator returns (its own nested functions, or functions nested in
         # a helper such as `_wrap_sync(func, policy, call_options)` that did not exist when the rules were written)
         returned_fns = {}
